@@ -190,6 +190,16 @@ class Runner:
                 if pid is not None:
                     kern.schedule_death(kern.procs[pid], 0.0, status, cause)
             k.inject[k.calls + off] = f
+        elif op == 'clockstep':
+            # the administrator (or ntp) steps the wall clock; monotonic time goes on as before
+            w.clock.wall_offset += st[1]
+        elif op == 'inject_clockstep':
+            _, off, delta = st
+
+            def cs(kern, delta=delta):
+                w.clock.wall_offset += delta
+            prev = k.inject.get(k.calls + off)
+            k.inject[k.calls + off] = cs if prev is None else (lambda kern, a=prev, b=cs: (a(kern), b(kern)))
         elif op == 'inject_req':
             _, poff, frac, cmd, props = st
 
